@@ -218,8 +218,86 @@ pub fn run_c11(opts: &Opts, out: &mut Emitter) {
     }
 }
 
+pub struct BombParts {
+    /// (bytes before the slot, bytes after it, the slot's own encoding)
+    pub slots: Vec<(Vec<u8>, Vec<u8>, Vec<u8>)>,
+    /// (bytes a wrapper puts before its operand, bytes it puts after)
+    pub wrappers: Vec<(Vec<u8>, Vec<u8>)>,
+}
+
+fn cbor_of<T: serde::Serialize>(t: &T) -> Vec<u8> {
+    let mut b = vec![];
+    ciborium::into_writer(t, &mut b).expect("encode");
+    b
+}
+
+fn find(hay: &[u8], needle: &[u8]) -> Option<usize> {
+    hay.windows(needle.len()).position(|w| w == needle)
+}
+
+fn valid_tx_for_bombs(g: &mut Gen) -> tir::Tx {
+    crate::stages::make_case(g, 2).tx
+}
+
+/// Splits real encoder output around a marker expression, for every expression wrapper of the IR and for a
+/// few slots of a transaction, so that nesting bombs can be assembled as bytes (no deep value is ever built).
+fn typed_bomb_parts(base: &tir::Tx) -> BombParts {
+    use tir::{BuiltInOp as B, Coerce, CompilerOp, Expression as E};
+    let marker = E::String("@@slot@@".into());
+    let m = cbor_of(&marker);
+    let wrap: Vec<E> = vec![
+        E::List(vec![marker.clone()]),
+        E::List(vec![E::Number(1), marker.clone()]),
+        E::Map(vec![(marker.clone(), E::None)]),
+        E::Map(vec![(E::None, marker.clone())]),
+        E::Tuple(Box::new((marker.clone(), E::None))),
+        E::Struct(tir::StructExpr { constructor: 0, fields: vec![marker.clone()] }),
+        E::EvalBuiltIn(Box::new(B::NoOp(marker.clone()))),
+        E::EvalBuiltIn(Box::new(B::Add(marker.clone(), E::Number(1)))),
+        E::EvalBuiltIn(Box::new(B::Sub(E::Number(1), marker.clone()))),
+        E::EvalBuiltIn(Box::new(B::Negate(marker.clone()))),
+        E::EvalBuiltIn(Box::new(B::Property(marker.clone(), E::Number(0)))),
+        E::EvalBuiltIn(Box::new(B::Concat(marker.clone(), E::None))),
+        E::EvalCoerce(Box::new(Coerce::IntoAssets(marker.clone()))),
+        E::EvalCoerce(Box::new(Coerce::IntoDatum(marker.clone()))),
+        E::EvalCompiler(Box::new(CompilerOp::BuildScriptAddress(marker.clone()))),
+        E::Assets(vec![tir::AssetExpr { policy: E::None, asset_name: E::None, amount: marker.clone() }]),
+    ];
+    let wrappers = wrap
+        .iter()
+        .filter_map(|w| {
+            let b = cbor_of(w);
+            find(&b, &m).map(|i| (b[..i].to_vec(), b[i + m.len()..].to_vec()))
+        })
+        .collect();
+    let mut slots = vec![];
+    let mut t1 = base.clone();
+    t1.fees = marker.clone();
+    let mut t2 = base.clone();
+    t2.references = vec![marker.clone()];
+    let mut t3 = base.clone();
+    t3.outputs.push(tir::Output { address: E::None, datum: marker.clone(), amount: E::None, optional: false });
+    for t in [t1, t2, t3] {
+        let b = encoding::to_bytes(&t).0;
+        if let Some(i) = find(&b, &m) {
+            slots.push((b[..i].to_vec(), b[i + m.len()..].to_vec(), m.clone()));
+        }
+    }
+    BombParts { slots, wrappers }
+}
+
 /// Child of the garbage probe: feeds malformed byte strings to `from_bytes`.
 pub fn run_garbage_child(opts: &Opts) {
+    // decode on a thread with the default thread stack (2 MiB, what a server's worker threads get), not on the
+    // main thread's 8 MiB
+    let o = Opts { ..opts.clone() };
+    let h = std::thread::Builder::new().stack_size(2 << 20).spawn(move || garbage_child_body(&o)).expect("spawn");
+    if let Ok(line) = h.join() {
+        println!("{line}");
+    }
+}
+
+fn garbage_child_body(opts: &Opts) -> String {
     let mut r = Rng::new(opts.seed ^ 0x6a7b);
     let mut g = Gen::new(Rng::new(opts.seed ^ 0x1));
     let (mut ok, mut err, mut panics) = (0u64, 0u64, vec![]);
@@ -229,11 +307,29 @@ pub fn run_garbage_child(opts: &Opts) {
             encoding::to_bytes(&c.tx).0
         })
         .collect();
+    let bombs = typed_bomb_parts(&valid_tx_for_bombs(&mut g));
     for k in 0..opts.n {
-        let bytes: Vec<u8> = match k % 6 {
+        let bytes: Vec<u8> = match k % 7 {
             0 => {
                 let l = r.below(200) as usize;
                 r.bytes(l)
+            }
+            6 => {
+                // typed nesting bomb: a well-formed encoding whose expression slot holds one IR wrapper nested
+                // `depth` times (the decoder keeps descending, unlike with untyped nesting)
+                let (head, tail, marker) = r.pick(&bombs.slots).clone();
+                let (pre, post) = r.pick(&bombs.wrappers).clone();
+                let depth = *r.pick(&[10usize, 60, 200, 1000, 5000, 20_000, 100_000]);
+                let mut b = head;
+                for _ in 0..depth {
+                    b.extend_from_slice(&pre);
+                }
+                b.extend_from_slice(&marker);
+                for _ in 0..depth {
+                    b.extend_from_slice(&post);
+                }
+                b.extend_from_slice(&tail);
+                b
             }
             1 => {
                 // bit flips of a valid encoding
@@ -279,7 +375,7 @@ pub fn run_garbage_child(opts: &Opts) {
             Err(site) => panics.push(site),
         }
     }
-    println!("{}", json!({"ok": ok, "err": err, "panics": panics}));
+    json!({"ok": ok, "err": err, "panics": panics}).to_string()
 }
 
 fn tx3c_bin() -> Option<String> {
